@@ -11,7 +11,7 @@ CONSTANTS
   CapDg = 1
   Callers <- TCallers
   Wants <- TWants
-  NDg = 0
+  NDg = 1000000000
   Causes = {}
   MaxCancels = 1000000000
 INVARIANTS TraceInv
